@@ -7,8 +7,12 @@
   * `Model/Scope.lean`: the Join handshake with the result / panic slots, for any number of coroutines and scopes.
   The replay machines of the families `panic` (both models side by side), `panichand` (the lock system under contention,
   with the two halves of a guard drop by an unwind tied to the flag store and the release of the lock word) and `scope`
-  execute these step functions. The two labelled witnesses (`swapped_guard_drop_hands_over_clean`,
-  `detached_panic_payload_leaks`) are about model variants that are NOT the code (`linitWith true`, `lazy := true`).
+  execute these step functions. `Model/ScopeCancel.lean` is the cancel word (`Cancel::state`) under the disable / enable
+  bracket of `JoinState::join`: the replay of `scope` / `panic` / `panicscope` runs it next to the Scope model (the
+  `fetch_add(2)` / `fetch_sub(2)` / `fetch_or(1)` and every load of the word are tied), family `scopecatch` (owners that
+  catch a re-raised child panic, go on and are cancelled) is replayed against it alone. The labelled witnesses (`swapped_guard_drop_hands_over_clean`,
+  `detached_panic_payload_leaks`, `scoped_join_reraise_first_leaks_disable`) are about model variants that are NOT the code
+  (`linitWith true`, `lazy := true`, `ScopeCancel.initWith true`).
   Assumption of every theorem here (finding F10, pending_fixes/README-C14.md): `thread::panicking()` tells a coroutine
   whether *it* is unwinding. std keeps that flag per thread, so it is true of the code only as long as no coroutine is
   suspended while it unwinds. Since F10.patch the scope exits (`coroutine::scope`, `cqueue::scope`) catch the owner's
@@ -21,6 +25,7 @@
 -/
 import MayVerif.Proof.Runtime.PanicLocks
 import MayVerif.Proof.Scope.InvH2Step
+import MayVerif.Proof.Scope.CancelBalance
 namespace MayVerif.Panic
 
 /-- **Poisoning follows std, and the lock is released either way**: dropping a guard releases the lock whatever the three
@@ -182,3 +187,48 @@ example : (run (init 4 true) [(0, .spawn 2), (2, .begin), (2, .enter), (2, .spaw
     (3, .go), (3, .go), (3, .go), (2, .fend), (2, .go), (2, .go), (2, .go), (2, .go)]).sh.src 2 = 3 := by decide
 
 end MayVerif.Scope
+
+namespace MayVerif.ScopeCancel
+
+/-- **The cancel word is balanced**: in every reachable state, for every coroutine, `Cancel::state` is the cancel bit
+    plus twice the number of open disable brackets (`jo`: those of `JoinState::join`, `fo`: those of other code), and a
+    coroutine that is not inside `JoinState::join` holds none of the former. -/
+theorem cancel_word_balanced (sched : List (Nat × Env)) (t : Nat) :
+    (run init sched).sh.cst t = b2n ((run init sched).sh.bit t) + 2 * ((run init sched).sh.jo t + (run init sched).sh.fo t) ∧
+    ((run init sched).pcs t = .out → (run init sched).sh.jo t = 0) :=
+  ⟨(binv_run _ sched binv_init).bal t, (binv_run _ sched binv_init).o t⟩
+
+/-- **The join of a scoped coroutine leaves the owner's cancel word as it found it**: whenever `JoinState::join` has been
+    left - by returning, or by unwinding with the re-raised panic of the scoped coroutine (`r = true`) - the disable count
+    at its exit (`b`) is the one at its entry (`a`). Every schedule, any number of coroutines, cancels and brackets of
+    other code at any time. -/
+theorem scoped_join_leaves_cancel_balanced (sched : List (Nat × Env)) (t a b : Nat) (r : Bool)
+    (h : (run init sched).sh.exit t = some (a, b, r)) : a = b :=
+  (binv_run _ sched binv_init).x t a b r h
+
+/-- ... so a child's panic does not make its owner un-cancellable: a coroutine that is outside `JoinState::join` and
+    outside every other bracket, and for which `cancel()` was called, has `Cancel::state == 1`, which is what
+    `is_canceled()` / `check_cancel` test (and `set_co` registers the wake-up slot, since `is_disabled()` is false). -/
+theorem cancel_visible_after_scoped_join (sched : List (Nat × Env)) (t : Nat)
+    (ho : (run init sched).pcs t = .out) (hf : (run init sched).sh.fo t = 0) (hb : (run init sched).sh.bit t = true) :
+    (run init sched).sh.cst t = 1 := by
+  have h := cancel_word_balanced sched t
+  rw [h.1, h.2 ho, hf, hb]; rfl
+
+/-- ... and the order `enable_cancel` -> re-raise is what that rests on: with the re-raise first (`initWith true`, seeded
+    change C13_c) coroutine 2 joins a scoped coroutine that panicked, the payload is re-raised, the bracket stays open
+    (disable count 0 at entry, 1 at exit); 2 catches the panic and runs on, is cancelled - and its cancel word is 3:
+    `is_canceled()` is false for ever. The same schedule in the code: count 0 at exit, word 1. -/
+theorem scoped_join_reraise_first_leaks_disable :
+    (run (initWith true) reraiseSched).sh.exit 2 = some (0, 1, true) ∧ (run (initWith true) reraiseSched).pcs 2 = .out ∧
+    (run (initWith true) reraiseSched).sh.cst 2 = 3 ∧
+    (run init reraiseSched).sh.exit 2 = some (0, 0, true) ∧ (run init reraiseSched).sh.cst 2 = 1 := by decide
+
+-- non-vacuity: a join that returns normally, with a bracket of other code nested inside the wait, cancelled meanwhile
+example : (run init [(2, .call false), (2, .go), (2, .fdis), (0, .cancel 2), (2, .fen), (2, .res false), (2, .go), (2, .go)]).sh.exit 2 =
+    some (0, 0, false) := by decide
+example : (run init [(2, .call false), (2, .go), (2, .fdis), (0, .cancel 2)]).sh.cst 2 = 5 := by decide
+-- an owner that is already unwinding drops the child's result: no re-raise, balanced all the same
+example : (run init [(2, .call true), (2, .go), (2, .res true), (2, .go), (2, .go)]).sh.exit 2 = some (0, 0, false) := by decide
+
+end MayVerif.ScopeCancel
